@@ -1,4 +1,4 @@
 Require Import QtlVerif.FuncCleanupDefs.
 Require Extraction.
 Require Import ExtrOcamlBasic.
-Extraction "cleanup_model.ml" cleanup prop_c14_func_b.
+Extraction "cleanup_model.ml" cleanup cleanup_ptr prop_c14_func_b.
